@@ -30,6 +30,8 @@ def gen_func(rng, wrong_p=0.15, explicit_p=0.5):
         n += 1
         if allow_implicit and rng.random() > explicit_p:
             return "i"
+        if rng.random() < 0.12:
+            return "q"      # written with the empty quoted name (`%""`, `"":`): unnamed, takes the next number like an implicit one
         if rng.random() < wrong_p:
             return "e%d" % rng.choice([cur + 1, max(cur - 1, 0), 0, cur + 7])
         return "e%d" % cur
